@@ -26,6 +26,7 @@ SNext ==
     \/ \E d \in 1..MaxTick : Tick(d) /\ A("Tick") /\ Rec([a |-> "Tick", d |-> d])
     \/ \E x \in jobs : JobGone(x) /\ A("JobGone") /\ Rec([a |-> "JobGone", k |-> JobName(x)])
     \/ DeliverJC /\ A("DeliverJC") /\ Rec([a |-> "DeliverJC"])
+    \/ RelistJC /\ A("RelistJC") /\ Rec([a |-> "JCWatchBreak"])
     \/ DeliverJob /\ A("DeliverJob") /\ Rec([a |-> "DeliverJob"])
     \/ Work /\ A("Work") /\ Rec([a |-> "Work"])
     \/ Boot /\ A("Boot") /\ Rec([a |-> "Boot"])
